@@ -16,10 +16,11 @@
 #define CANON_LEVELS    (1u<<9)   /* depth / logical_index / level tables */
 #define CANON_SYMM      (1u<<10)  /* symmetric_subtree */
 #define CANON_ALLOWED   (1u<<11)
+#define CANON_SPECIAL_ORDER (1u<<12) /* logical_index of I/O, Misc and memory objects and the order of their levels (nothing documents that order) */
 #define CANON_STRUCT    (CANON_LEVELS | CANON_ALLOWED)                  /* tree shape and sets only */
 #define CANON_ALL       0xffffu
 /* what an XML v3 round trip must preserve when reloading with all types kept */
-#define CANON_XML       (CANON_ALL & ~(CANON_USERDATA | CANON_CONFIG | CANON_SUPPORT))
+#define CANON_XML       (CANON_ALL & ~(CANON_USERDATA | CANON_CONFIG | CANON_SUPPORT | CANON_SPECIAL_ORDER))
 
 void canon(struct sb *out, hwloc_topology_t t, unsigned flags);
 char *canon_str(hwloc_topology_t t, unsigned flags);  /* malloc'ed */
